@@ -6,7 +6,7 @@
 //
 // Sub-commands:
 //
-//	run   -mode seq|burst|probe -seed S -n N -out F     supervisor: re-executes itself as `child`, contains crashes
+//	run   -mode seq|burst|burst-sameid|probe|race|race-add|race-readd|race-tracker -seed S -n N -out F     supervisor: re-executes itself as `child`, contains crashes
 //	child -mode ... -from I -to N -out F                one process, many traces (fresh directory + session each)
 //	codec -cases F -out F                               resumer field codec round trips for TLC-generated tuples
 package main
@@ -419,7 +419,7 @@ func torrentLoops() int {
 	}
 }
 
-func (e *env) callAdd(g int, a addSpec) {
+func (e *env) callAdd(g int, a addSpec) string {
 	tiers := a.m.tiers
 	ws := a.m.ws
 	metaKnown := true
@@ -506,6 +506,7 @@ func (e *env) callAdd(g int, a addSpec) {
 		}
 		e.mu.Unlock()
 	}
+	return res
 }
 
 func classify(err error) string {
@@ -1168,6 +1169,77 @@ func raceTrace(T *tracer, pool []*meta, seed int64, idx int) {
 	}
 }
 
+// raceReaddTrace: RemoveTorrent(a) of a RUNNING torrent against AddTorrent/AddURI(ID: a).  A removed torrent runs until the
+// remove closes it, and while it stops its loop writes its bitfield to the resume database BY ID (torrent_stop.go).  The
+// adder waits until the record of the removed torrent is gone (read transactions: never blocked) or until the torrent has
+// left the registry, and then adds at once, again while it is refused as a duplicate: it gets in as soon as the remove
+// gives the id back.  If that is before the removed torrent is closed, its loop and the add race for the record, and the
+// record of the new torrent - added stopped, never started - may end up with the bitfield of the removed one.  No gate:
+// the order is up to the runtime; the trace is judged like any other concurrent history.
+func raceReaddTrace(T *tracer, pool []*meta, seed int64, idx int) {
+	rng := rand.New(rand.NewSource(seed*17000023 + int64(idx)))
+	variant := idx % 3
+	e := newEnv(T, rng, pool, 3, false)
+	defer e.cleanup()
+	e.init(fmt.Sprintf("race-readd:%d", variant), idx)
+	if err := e.open(); err != nil {
+		panic(err)
+	}
+	e.obs()
+	old := pool[1+rng.Intn(2)]
+	e.callAdd(1, addSpec{m: old, kind: "torrent", stopped: variant == 2, id: "a"})
+	if variant == 2 { // started by a call of its own
+		e.callStart(1, "a", true)
+	}
+	waitBitfield(e, "a")
+	e.obs()
+	a := addSpec{m: pool[rng.Intn(len(pool))], kind: "torrent", stopped: true, id: "a"}
+	if rng.Intn(4) == 0 {
+		a.kind = "magnet"
+	}
+	var wg sync.WaitGroup
+	var removed atomic.Bool
+	wg.Add(2)
+	go func() {
+		defer wg.Done()
+		e.callRemove(2, "a")
+		removed.Store(true)
+	}()
+	go func() {
+		defer wg.Done()
+		deadline := time.Now().Add(5 * time.Second)
+		for time.Now().Before(deadline) && !removed.Load() {
+			if variant == 1 {
+				if e.s.GetTorrent("a") == nil {
+					break
+				}
+			} else if !torrent.VerifC14HasRecord(e.s, "a") {
+				break
+			}
+		}
+		for n := 0; n < 16; n++ {
+			if e.callAdd(3, a) != "dup" || e.dead {
+				return
+			}
+			if removed.Load() { // the remove has returned: one more call, which must get in
+				e.callAdd(3, a)
+				return
+			}
+			if variant == 1 {
+				time.Sleep(time.Duration(20+rng.Intn(200)) * time.Microsecond)
+			}
+		}
+	}()
+	wg.Wait()
+	e.obs()
+	if !e.dead {
+		e.callReopen(1, nil)
+	}
+	if !e.dead {
+		e.obs()
+	}
+}
+
 // ---------------------------------------------------------------------------------------------
 
 func child(mode string, seed int64, from, to, nops, k int, out string) {
@@ -1188,6 +1260,8 @@ func child(mode string, seed int64, from, to, nops, k int, out string) {
 			raceTrace(T, pool, seed, i)
 		case "race-add":
 			raceAddTrace(T, pool, seed, i)
+		case "race-readd":
+			raceReaddTrace(T, pool, seed, i)
 		case "race-tracker":
 			trackerRaceTrace(T, pool, seed, i)
 		default:
